@@ -25,9 +25,11 @@ import (
 	"github.com/attestantio/dirk/testing/resources"
 	pb "github.com/wealdtech/eth2-signer-api/pb/v1"
 	"google.golang.org/grpc"
+	"google.golang.org/grpc/codes"
 	"google.golang.org/grpc/credentials"
 	"google.golang.org/grpc/credentials/insecure"
 	"google.golang.org/grpc/metadata"
+	"google.golang.org/grpc/status"
 	"google.golang.org/protobuf/proto"
 )
 
@@ -579,7 +581,13 @@ func runPeerEdge(t *testing.T, rc *RunCtx) {
 			return
 		}
 		// The genuine peer's session is untouched: it can still abort it.
-		if _, err := pb.NewDKGClient(peer).Abort(ctx, &pb.AbortRequest{Account: account}); err != nil {
+		ctx2, cancel2 := context.WithTimeout(context.Background(), 60*time.Second)
+		defer cancel2()
+		if _, err := pb.NewDKGClient(peer).Abort(ctx2, &pb.AbortRequest{Account: account}); err != nil {
+			if c := status.Code(err); c == codes.DeadlineExceeded || c == codes.Unavailable || c == codes.Canceled {
+				rc.Stats.Inc("edge_transport_errors", 1) // a slow machine, not an answer of the instance
+				return
+			}
 			rc.Violate("C16", "session-disturbed-by-non-peer", fmt.Sprintf("%s: afterwards the genuine peer's session was gone (%v)", name, err), 0)
 		}
 		return
